@@ -355,7 +355,7 @@ def port_st(draw, platform: str = "ios", names=None, allow_none=True, empty_sets
     return {"op": op, "v": vals, "nm": nm}
 
 
-_COMMON = st.sampled_from([0, 0, 6, 6, 6, 6, 17, 17, 17, 1, 47])
+_COMMON = st.sampled_from([0, 0, 6, 6, 6, 6, 17, 17, 17, 1, 47, 200])
 PROTO_ST = st.one_of(_COMMON, _COMMON, _COMMON, st.integers(0, 255))
 
 
@@ -509,11 +509,15 @@ def mutate_ace(draw, rec: dict, platform: str, version="0", kmax=4, groups=False
     out["ws"] = None
     if draw(st.integers(0, 9)) < 2:
         out["action"] = "deny" if rec["action"] == "permit" else "permit"
-    pm = draw(st.integers(0, 9))
+    pm = draw(st.sampled_from(range(12)))
     if pm < 2:
         out["proto"] = 0
     elif pm < 3:
         out["proto"] = draw(st.sampled_from([6, 17, 1]))
+    elif pm < 5:
+        # a neighbouring / arbitrary protocol number (two protocols without a keyword must stay different)
+        out["proto"] = draw(st.one_of(st.sampled_from([(rec["proto"] + 1) % 256, (rec["proto"] - 1) % 256]),
+                                      st.integers(0, 255)))
     out["pn"] = draw(st.sampled_from([-1, 0]))
     out["src"] = draw(mutate_addr(rec["src"], kmax, groups))
     out["dst"] = draw(mutate_addr(rec["dst"], kmax, groups))
